@@ -89,6 +89,30 @@ def diffs_of(log):
         if lim["budgets"] != exp:
             res.append((f"limits:parent-budget:{mod}", f"_calculate_timeout gives {lim['budgets']} for sizes {lim['sizes']}, "
                         f"min(maximum, per*size) is {exp}", {"limits": lim}))
+    for ib in log.get("iter_batches", []):
+        if len(ib["subproc"]) != ib["k"]:
+            res.append((f"iterator-batch:shape:{mod}", f"execute_multiple(generator of {ib['k']} test cases) returned "
+                        f"{len(ib['subproc'])} results", {"k": ib["k"]}))
+            continue
+        for i, (x, y) in enumerate(zip(ib["subproc"], ib["inproc"])):
+            for f in FIELDS:
+                if x[f] != y[f]:
+                    res.append((f"iterator-batch:{f}:{mod}", f"execute_multiple(generator of {ib['k']} test cases): result {i} "
+                                f"differs in {f} from the in-process result: {str(y[f])[:200]} vs {str(x[f])[:200]}",
+                                {"k": ib["k"], "index": i, "field": f}))
+                    break
+    rep = log.get("repeat")
+    if rep:
+        for k, (x, y) in enumerate(zip(rep["subproc"], rep["inproc"])):
+            for f in FIELDS:
+                if x[f] != y[f]:
+                    res.append((f"mutant:lost-after-call:{f}", f"mutated module version registered once, call {k + 1} on the same "
+                                f"executor: in-process {f} = {str(y[f])[:200]}, subprocess {f} = {str(x[f])[:200]}",
+                                {"call": k + 1, "field": f, "inproc": y[f], "subproc": x[f]}))
+                    break
+            else:
+                continue
+            break
     ba = log.get("batch_all")
     if ba:
         if len(ba["subproc"]) != len(ba["inproc"]):
@@ -248,6 +272,7 @@ def run(ctx: vlib.Ctx):
                          "per_stmt": 20})
     pats = [list(p) for p in corpus["patterns"]] + gen_patterns(ctx.rng, 2 if ctx.quick else 12)
     jobs.append({"module": "crash", "patterns": pats, "max_timeout": 60})
+    jobs.append({"module": "mutant", "max_timeout": 60, "per_stmt": 20})
     # unequal limits and a slow test case that is well inside its budget min(60, 5*6) = 30 s: a child that
     # gets other limits than the parent shows up as a limits difference and as a timeout-flag difference
     jobs.append({"module": "slow", "max_timeout": 60, "per_stmt": 5, "nap": 6})
@@ -324,6 +349,8 @@ def run(ctx: vlib.Ctx):
         for sig, msg, det in ds[:4]:
             n_diff += 1
             ctx.fail(sig, msg, {"kind": "diff", "job": j, "detail": det})
+        for ib in log.get("iter_batches", []):
+            ctx.count("iterator-batch:size:%d" % min(ib["k"], 3))
         if log.get("limits"):
             lcases.append(c_lcase(log["limits"]))
             ctx.count("limits:jobs")
@@ -335,6 +362,8 @@ def run(ctx: vlib.Ctx):
             ctx.count("diff:exception:" + ("yes" if a["exceptions"] else "no"))
             ctx.count("diff:assertions:" + ("yes" if c["n_assertions"] else "no"))
             ctx.count("diff:falsified:" + ("yes" if c.get("falsified") else "no"))
+            if c.get("mutant"):
+                ctx.count("diff:mutated-module-registered")
             if "pass2" in c and c["pass2"]["inproc"]["verification"]["failed"]:
                 ctx.count("diff:verification-failed-nonempty")
         if log["cases"]:
